@@ -32,7 +32,9 @@ def rule_ed_sem(ctx: RuleContext, p: Program, rid: str) -> None:
                   'exactly the files whose printed model differs from the text read are rewritten, with exactly that text, removed entries are '
                   'deleted, new entries are created (their directory first), and no other path is touched; the models handed out are the ones '
                   'parsed in this session from the text read in this session; a second session on the same Editor starts from the files as '
-                  'they are then')
+                  'they are then; two sessions of one Editor that overlap (one opened and closed inside the with-block of the other, either entry '
+                  'point in either role, on two ledgers) each write exactly their own changed files; a checksum or digest of a text (zlib, hashlib, '
+                  'hash()) is a lossy summary and is evaluated as the constant function, so the decision to write may use one only next to the full text')
     m = p.module('editor')
     ed = p.cls('Editor', 'editor')
     ts = TS(p)
